@@ -39,11 +39,12 @@ theorem Synced.toM {s : State} (h : Synced s) : SyncedM s where
 /-- `Tidy` only looks at these components of the state -/
 theorem Tidy.congr {s s' : State} (h : Tidy s) (h1 : s'.font.history = s.font.history)
     (h2 : s'.font.default = s.font.default)
-    (h3 : ∀ ln, AL.contains s'.font.layers ln = AL.contains s.font.layers ln)
+    (h3 : s'.font.layers = s.font.layers)
     (h4 : s'.font.order = s.font.order) (h5 : s'.font.images = s.font.images)
     (h6 : s'.font.data = s.font.data) (h7 : DiskOk s'.disk) : Tidy s' where
   history := by rw [h1, h2]; exact h.history
   layersInOrder := by intro ln hc; rw [h3] at hc; rw [h4]; exact h.layersInOrder ln hc
+  schedNodup := by rw [h3]; exact h.schedNodup
   imagesDisjoint := by rw [h5]; exact h.imagesDisjoint
   dataDisjoint := by rw [h6]; exact h.dataDisjoint
   disk := h7
@@ -110,7 +111,7 @@ theorem loadPart_font (s : State) (p : Part) :
 
 theorem tidy_loadPart {s : State} (h : Tidy s) (p : Part) : Tidy (loadPart s p) := by
   obtain ⟨h1, _, _, h4, h5, h6, h7, h8, h9, _⟩ := loadPart_font s p
-  exact h.congr h7 h6 (by intro ln; rw [h4]) h5 h8 h9 (by rw [h1]; exact h.disk)
+  exact h.congr h7 h6 h4 h5 h8 h9 (by rw [h1]; exact h.disk)
 
 /-- what `writePart` does to the disk: only the top-level files change, and only the one of `p` -/
 theorem writePart_spec (d : Disk) (p : Part) (v : Blob) (t : Time) :
@@ -174,7 +175,7 @@ theorem tidy_savePart {s : State} (h : Tidy s) (tD tS : Time) (always : Bool) (p
     split
     · obtain ⟨ps, hw, _⟩ := writePart_spec (loadPart s p).disk p mp.value tD
       rw [hw]
-      exact h1.congr rfl rfl (fun _ => rfl) rfl rfl rfl (diskOk_parts h1.disk ps)
+      exact h1.congr rfl rfl rfl rfl rfl rfl (diskOk_parts h1.disk ps)
     · exact h1
 
 theorem savePart_zip (s : State) (tD tS : Time) (always : Bool) (p : Part) :
@@ -464,11 +465,11 @@ theorem core_saveFS {s : State} (h : SaveCore s) (ht : Tidy s) (tD tS : Time) (i
   | true =>
     obtain ⟨k1, k2⟩ := fsSynced_save h.images ht.imagesDisjoint ht.disk.images s.zip tD tS
     refine ⟨⟨h.parts, h.order, h.default, h.layers, k1, h.data, h.nodupOrder⟩, ?_⟩
-    exact ⟨ht.history, ht.layersInOrder, by intro n _; rfl, ht.dataDisjoint, ⟨ht.disk.glifs, k2, ht.disk.data⟩⟩
+    exact ⟨ht.history, ht.layersInOrder, ht.schedNodup, by intro n _; rfl, ht.dataDisjoint, ⟨ht.disk.glifs, k2, ht.disk.data⟩⟩
   | false =>
     obtain ⟨k1, k2⟩ := fsSynced_save h.data ht.dataDisjoint ht.disk.data s.zip tD tS
     refine ⟨⟨h.parts, h.order, h.default, h.layers, h.images, k1, h.nodupOrder⟩, ?_⟩
-    exact ⟨ht.history, ht.layersInOrder, ht.imagesDisjoint, by intro n _; rfl, ⟨ht.disk.glifs, ht.disk.images, k2⟩⟩
+    exact ⟨ht.history, ht.layersInOrder, ht.schedNodup, ht.imagesDisjoint, by intro n _; rfl, ⟨ht.disk.glifs, ht.disk.images, k2⟩⟩
 
 theorem saveFS_zip (tD tS : Time) (s : State) (img : Bool) : (saveFS tD tS s img).zip = s.zip := by
   rw [saveFS_eq]; cases img <;> rfl
@@ -1015,6 +1016,25 @@ theorem saveRest_spec {s7 s' : State} {zip hazard : Bool} {tD tS : Time} (c : Sa
           apply t.layersInOrder
           rw [← AL_mem_keys_iff_contains, ← kF, AL_mem_keys_iff_contains]
           exact hc'
+        schedNodup := by
+          intro ln l' hg
+          have hg' : AL.get? (FL.map fun p => (p.1, ({ p.2 with gs := some ⟨p.1, glifNames { s7.disk with layers := DL } p.1, true⟩ } : MLayer))) ln = some l' := hg
+          rw [get?_map_key_val (fun k (v : MLayer) => ({ v with gs := some ⟨k, glifNames { s7.disk with layers := DL } k, true⟩ } : MLayer))] at hg'
+          cases hf : AL.get? FL ln with
+          | none => simp [hf] at hg'
+          | some l0 =>
+            simp [hf] at hg'
+            subst hg'
+            have hln : ln ∈ s7.font.order := by
+              apply t.layersInOrder
+              rw [← AL_mem_keys_iff_contains, ← kF]
+              exact AL.mem_keys_of_get? hf
+            obtain ⟨l, dl, _, _, _, h4, _⟩ := layerOf ln hln
+            rw [hf] at h4
+            injection h4 with h4
+            subst h4
+            rw [saveLayer_eq]
+            simp [AL.keys]
         imagesDisjoint := t.imagesDisjoint
         dataDisjoint := t.dataDisjoint
         disk := {
@@ -1048,7 +1068,7 @@ theorem saveRest_spec {s7 s' : State} {zip hazard : Bool} {tD tS : Time} (c : Sa
         rw [glifNames_retime]
       rw [hfin]
       refine ⟨synced_retime hXs tD tS, ?_⟩
-      exact hXt.congr rfl rfl (fun _ => rfl) rfl rfl rfl (diskOk_retime hXt.disk tD)
+      exact hXt.congr rfl rfl rfl rfl rfl rfl (diskOk_retime hXt.disk tD)
 
 /-- SAVE.  A completed in-place save of a font that is in step with its UFO except for glyphs that
 exist in memory only, with nothing pending in the layer history, leaves the font in step. -/
